@@ -15,6 +15,8 @@ package iobroker
 //@   ghost kIn string
 //@   ghost kOut string
 //@   lock mu protects key, cancelIn, cancelOut, noMore, ownIn, ownOut, kIn, kOut
+//@   lock evMu protects evListeners
+//@   nonnil evListeners, evCh
 //@   lockinv mu cin: (b.cancelIn != nil) == (b.ownIn != 0)
 //@   lockinv mu cout: (b.cancelOut != nil) == (b.ownOut != 0)
 //@   lockinv mu keyset: imp(b.key != "", b.ownIn != 0 || b.ownOut != 0)
@@ -201,3 +203,40 @@ package iobroker
 //@   ghost n int = 0
 //@   on enter Broker.sendLine(bb, c, ad, f, aa): assert(bb == b && ad == addr && f == format && aa == a, "forwarded_unchanged"); n++
 //@   ensures one_line: n == 1
+
+// isBidir: a key belongs to a /io request exactly when it starts with the
+// broker's bidirectional sentinel.
+//@ func Broker.isBidir(b, key) (r)
+//@   props C06
+//@   assigns none
+//@   ensures meaning: r == strings.HasPrefix(key, b.bidirKey)
+
+// processEvents: every event taken from the broker's event channel is handed,
+// unchanged and under the listener lock, to the registered listeners; nothing
+// else is ever sent to a listener.
+//@ func Broker.processEvents(b, ctx)
+//@   props C04 C12
+//@   ghost cur Event
+//@   ghost have bool = false
+//@   on recv b.evCh(e, ok): cur = e; have = true
+//@   on send l(v): assert(have && v == cur && held("Broker.evMu"), "listeners_get_exactly_the_received_event_under_the_listener_lock")
+//@   loop 1
+//@     invariant unlocked: !held("Broker.evMu")
+
+// Listener registration only touches the listener set, under its lock.
+//@ func Broker.AddEventListener(b, ch)
+//@   props C04 C12
+//@   ensures unlocked_again: !held("Broker.evMu")
+
+//@ func Broker.RemoveEventListener(b, ch)
+//@   props C04 C12
+//@   ensures unlocked_again: !held("Broker.evMu")
+
+// New establishes the representation invariant: no stream attached, no key,
+// listener set and event channel ready, channels as given.
+//@ func New(ich, och) (b, err)
+//@   props C01 C04 C06
+//@   nilable ich, och
+//@   ensures one_result: (b == nil) == (err != nil)
+//@   ensures idle: imp(err == nil, b.key == "" && b.cancelIn == nil && b.cancelOut == nil && !b.noMore && b.ownIn == 0 && b.ownOut == 0)
+//@   ensures ready: imp(err == nil, b.evListeners != nil && b.evCh != nil && b.ich == ich && b.och == och)
